@@ -42,6 +42,7 @@ Advertise(e) ==
        /\ Chk(dmin < 0 \/ ~e.dexact \/ dmin = e.d, "true_distance_equals_documented_exact_value")
        /\ Chk((dmin < 0 /\ e.d > 0 /\ e.d <= 5 /\ cur.wf /\ cur.n - cur.k <= 16) => NoLightCodeword(cur.H, cur.n, e.d),
               "true_distance_at_least_advertised")
+       /\ Chk(dmin < 0 \/ e.t < 0 \/ 2 * e.t + 1 <= dmin, "advertised_correction_capability_within_half_the_true_distance")
        /\ Chk(e.cyclic => CyclicClosed(cur.G, cur.n, cur.B), "closed_under_cyclic_shifts")
        /\ Chk(Gp # <<-1>> => Divides({ j \in 0..cur.n : Gp[j + 1] = 1 }, {0, cur.n}), "generator_polynomial_divides_Xn_plus_1")
        /\ Chk((Gp # <<-1>> /\ e.cyclic) => \A i \in 1..cur.k : Divides({ j \in 0..cur.n : Gp[j + 1] = 1 }, Support(cur.G[i], cur.n)),
